@@ -190,7 +190,7 @@ macro_rules! d_bfv {
 macro_rules! d_rank {
     ($x:expr, $n:expr) => {{
         let x = &$x;
-        let mut d: Digest = vec![BitLength::len(x) as u64, NumBits::num_ones(x) as u64];
+        let mut d: Digest = vec![BitLength::len(x) as u64, NumBits::num_ones(x) as u64, x.len() as u64, x.num_ones() as u64, x.num_zeros() as u64];
         let step = ($n / 3000).max(1);
         let mut p = 0;
         while p <= $n + 2 {
@@ -209,7 +209,7 @@ macro_rules! d_sel {
     ($x:expr, $n:expr) => {{
         let x = &$x;
         let ones = NumBits::num_ones(x);
-        let mut d: Digest = vec![BitLength::len(x) as u64, ones as u64];
+        let mut d: Digest = vec![BitLength::len(x) as u64, ones as u64, x.len() as u64, x.num_ones() as u64, x.num_zeros() as u64];
         let step = (ones / 3000).max(1);
         let mut r = 0;
         while r < ones + 2 {
@@ -332,12 +332,15 @@ macro_rules! d_rcl {
         let mut d: Digest = vec![x.len() as u64];
         for i in 0..x.len() {
             d.push(hstr(&IndexedSeq::get(x, i)));
+            d.push(hstr(&x.get(i)));
         }
         // (iterating an empty rear-coded list panics on the original as well: that belongs to C09/C12)
         if x.len() > 0 {
             d.extend(x.iter().map(|s| hstr(&s)));
             for p in $probes.iter() {
                 d.push(IndexedDict::index_of(x, p.as_str()).map(|i| i as u64 + 1).unwrap_or(0));
+                d.push(x.index_of(p.as_str()).map(|i| i as u64 + 1).unwrap_or(0));
+                d.push(x.contains(p.as_str()) as u64);
             }
         }
         d
